@@ -1,5 +1,5 @@
 // Replays the behaviours of spec/History.tla on real generator instances and event objects (properties C07, C08).
-//   A <aid> <name> <args...>     Create g c | ResetReinit g c | Shoot g e s | ShootMany g e | Destroy g | EventReset e | EventPrefill e
+//   A <aid> <name> <args...>     Create g c | ResetReinit g c | Shoot g e s | ShootMany g e | Destroy g | EventReset e | EventPrefill e | EventCopy e
 //   E <src> <aid> <dst>          (the model is deterministic: one successor per (state, action))
 //   I <sid>
 // After every Shoot the event must be bit-identical to Canon(cfg, stream): the event a fresh instance with the same
@@ -188,6 +188,9 @@ struct Runner
         gens.erase(a.a[0]);
       } else if (a.name == "EventReset") {
         evs[a.a[0]].reset();
+      } else if (a.name == "EventCopy") {
+        bxdecay0::event copy(evs[a.a[0]]);     // capacity of the particle list = its size
+        evs[a.a[0]] = std::move(copy);
       } else if (a.name == "EventPrefill") {
         bxdecay0::event & ev = evs[a.a[0]];
         ev.set_generator("junk");
